@@ -3,8 +3,10 @@ package checks
 import (
 	"bytes"
 	"crypto/ed25519"
+	"encoding/hex"
 	"encoding/json"
 	"fmt"
+	"strconv"
 	"strings"
 	"time"
 
@@ -38,6 +40,7 @@ var c03Alphabet = []string{
 	"X:start-replay-L", "L:finish-genuine-begin", "L:finish-genuine-end",
 	"L:finish-signed-by-L-naming-case-variant", "L:finish-signed-by-L-naming-prefix-of-L",
 	"X:finish-reflecting-accessory-signature", "X:start-with-accessory-key", "X:finish-echoing-start-response",
+	"L:finish-genuine-plus-cut-off-item", "L:finish-genuine-plus-lone-tag", "L:finish-genuine-then-pipelined-failed-verify",
 }
 
 func swapCase(s string) string {
@@ -259,6 +262,49 @@ func (r *c03Run) step(ev string) bool {
 			cn.lastM3 = body
 			m, err = post(body)
 		}
+	case "finish-genuine-then-pipelined-failed-verify":
+		// L's genuine finish, and in the same TCP segment (appended by somebody on the path, no secret needed) a complete
+		// pair-verify that fails: a start with a fresh key and a finish naming nobody. The genuine exchange stays valid:
+		// L is verified and its encrypted requests are served.
+		if pending == nil || cn.name != "L" || cn.verified {
+			cn.pending = pending // not enabled: nothing is sent
+			return true
+		}
+		isFinish = true
+		expectVerify = !r.lUnpaired
+		z := refctl.NewVerify(refctl.Seed32(fmt.Sprintf("pipelined:%d", r.seq)))
+		z.AccEph = refctl.Seed32("pipelined-acc")
+		raw := refctl.BuildRequest("POST", "/pair-verify", refctl.CTPairing, pending.M3(idL))
+		raw = append(raw, refctl.BuildRequest("POST", "/pair-verify", refctl.CTPairing, refctl.VerifyM1(z.EphPub))...)
+		raw = append(raw, refctl.BuildRequest("POST", "/pair-verify", refctl.CTPairing, refctl.VerifyM3Sealed(refctl.Seed32("pipelined-key"), z.M3Sub("nobody", idX.Priv)))...)
+		cn.lastM3 = pending.RawM3
+		if err = cn.k.SendRaw(raw); err == nil {
+			m, err = cn.k.ReadMsg()
+		}
+		if err != nil {
+			cn.dead = true
+		} else {
+			// the answers to the two appended requests; an accessory that drops the connection instead is within its rights
+			for i := 0; i < 2; i++ {
+				if _, e := cn.k.ReadMsg(); e != nil {
+					cn.dead = true
+					r.c.Class(op + "→connection dropped after the finish response")
+					return true
+				}
+			}
+		}
+	case "finish-genuine-plus-cut-off-item", "finish-genuine-plus-lone-tag":
+		// L's genuine payload followed by bytes that do not form an item: a malformed message
+		isFinish = true
+		x := ctxv
+		if pending != nil {
+			x = pending
+		}
+		tail := []byte{refctl.TagSignature, 64, 1, 2, 3}
+		if strings.HasSuffix(op, "lone-tag") {
+			tail = []byte{0x0b}
+		}
+		m, err = post(refctl.VerifyM3Sealed(x.EncKey, append(x.M3Sub(idL.ID, idL.Priv), tail...)))
 	case "finish-signed-by-X-naming-L":
 		isFinish = true
 		m, err = post(refctl.VerifyM3Sealed(ctxv.EncKey, ctxv.M3Sub(idL.ID, idX.Priv)))
@@ -375,6 +421,17 @@ func (r *c03Run) step(ev string) bool {
 		m, err = post(refctl.VerifyM3Sealed(ctxv.EncKey, old.M3Sub(idL.ID, idL.Priv)))
 	case "state-7":
 		m, err = post(refctl.TLVEncode(refctl.T(refctl.TagState, []byte{7})))
+	default:
+		if !strings.HasPrefix(op, "finish-genuine-malformed:") {
+			r.c.Infra("unknown symbol " + ev)
+			return false
+		}
+		isFinish = true
+		x := ctxv
+		if pending != nil {
+			x = pending
+		}
+		m, err = post(c03Malformed(x, strings.TrimPrefix(op, "finish-genuine-malformed:")))
 	case "method-1":
 		m, err = post(refctl.TLVEncode(refctl.T(refctl.TagMethod, []byte{1}), refctl.T(refctl.TagState, []byte{1}), refctl.T(refctl.TagPublicKey, pat(32, 3))))
 	}
@@ -439,6 +496,52 @@ func (r *c03Run) probe() {
 			r.fail("unverified-connection-encrypted", fmt.Sprintf("connection %s is unverified but serves requests sealed under the keys of its own (unauthenticated) exchange: status %d", name, pr.Decrypted.Status))
 		}
 	}
+}
+
+// c03Malformed: L's genuine finish of exchange x, damaged. Variants: "cut:<k>" the signed payload cut to its first
+// k bytes before sealing; "tail:<hex>" the payload followed by bytes that do not form an item; "outer-tail:<hex>" /
+// "outer-cut:<k>" the same damage to the request body itself.
+func c03Malformed(x *refctl.Verify, variant string) []byte {
+	sub := x.M3Sub(idL.ID, idL.Priv)
+	kind, arg, _ := strings.Cut(variant, ":")
+	switch kind {
+	case "cut":
+		k, _ := strconv.Atoi(arg)
+		if k > len(sub) {
+			k = len(sub)
+		}
+		return refctl.VerifyM3Sealed(x.EncKey, sub[:k])
+	case "tail":
+		t, _ := hex.DecodeString(arg)
+		return refctl.VerifyM3Sealed(x.EncKey, append(sub, t...))
+	case "outer-tail":
+		t, _ := hex.DecodeString(arg)
+		return append(refctl.VerifyM3Sealed(x.EncKey, sub), t...)
+	case "outer-cut":
+		k, _ := strconv.Atoi(arg)
+		b := refctl.VerifyM3Sealed(x.EncKey, sub)
+		if k > len(b) {
+			k = len(b)
+		}
+		return b[:len(b)-k]
+	}
+	return nil
+}
+
+// c03MalformedVariants: every cut of the genuine signed payload (it is 2+36+2+64 bytes long), and tails that do not
+// form an item, inside the sealed payload and after the request body.
+func c03MalformedVariants() []string {
+	var out []string
+	for k := 0; k < 2+len(idL.ID)+2+64; k++ {
+		out = append(out, fmt.Sprintf("cut:%d", k))
+	}
+	for _, t := range []string{"0b", "0a40010203", "0a", "0140", "ff01", "0aff" + strings.Repeat("00", 254)} {
+		out = append(out, "tail:"+t, "outer-tail:"+t)
+	}
+	for _, k := range []int{1, 2, 15, 16, 17} {
+		out = append(out, fmt.Sprintf("outer-cut:%d", k))
+	}
+	return out
 }
 
 type c03Case struct {
@@ -534,6 +637,14 @@ func c03Run1(c *fw.Ctx) {
 		}()
 		defer func() { <-done }()
 	}
+	// every damaged form of L's genuine finish, sent where the genuine one would be accepted (directly after an
+	// accepted start) and after L has verified: answered with an error, connection not verified
+	for i, v := range c03MalformedVariants() {
+		if i%c.NShards != c.Shard {
+			continue
+		}
+		c03Exec(c, []string{"L:start", "L:finish-genuine-malformed:" + v})
+	}
 	depth := 3
 	if c.Thorough() {
 		depth = 4
@@ -543,7 +654,7 @@ func c03Run1(c *fw.Ctx) {
 		n = 16 // quick: the first 16 symbols (simplest first) …
 	}
 	// … plus the two degenerate-entity symbols
-	alpha := append(append([]string{}, c03Alphabet[:n]...), "X:finish-naming-keyless-entity", "X:finish-naming-shortkey-entity", "L:finish-genuine-begin", "L:finish-genuine-end", "L:finish-signed-by-L-naming-case-variant", "X:finish-reflecting-accessory-signature", "X:start-with-accessory-key", "X:finish-echoing-start-response")
+	alpha := append(append([]string{}, c03Alphabet[:n]...), "X:finish-naming-keyless-entity", "X:finish-naming-shortkey-entity", "L:finish-genuine-begin", "L:finish-genuine-end", "L:finish-signed-by-L-naming-case-variant", "X:finish-reflecting-accessory-signature", "X:start-with-accessory-key", "X:finish-echoing-start-response", "L:finish-genuine-plus-cut-off-item", "L:finish-genuine-then-pipelined-failed-verify")
 	if c.Thorough() {
 		// thorough: the quick alphabet to depth 4, and the full alphabet to depth 3
 		full := c03Alphabet
@@ -600,7 +711,7 @@ func init() {
 	fw.Register(&fw.Check{
 		ID:    "C03",
 		Level: "model_checking",
-		Rule:  "every history of length ≤3 (quick) / ≤4 (thorough) over 24 symbols, in thorough also every history of length ≤3 over all 32 symbols, of the pair-verify alphabet on an adversary connection X and a legitimate connection L (start valid / 31 / 33 / 0-byte key / all-zero point; finish genuine, signed by X naming L, unknown name, naming the accessory, sealed under zero / wrong key, 0 and 15 byte payloads, tag flipped, L's captured finish replayed, L's signature over reordered or stale material, naming a stored entity that has no key / a 5-byte key, signed by L's own key but naming the case-swapped spelling / a prefix of its name, the accessory's own identifier and signature reflected, a start with the accessory's own ephemeral key followed by a finish that echoes the sealed part of the start response; unknown state; unknown method; reopen; L's start replayed by X; L's genuine finish split with Expect: 100-continue so that its handler overlaps with later events) against the real transport over TCP; each node is replayed on a fresh system; after every event the response is compared with the reference model (verified ⇔ genuine finish by L directly after an accepted start, computed by the independent controller), and at the end of every history each connection is probed destructively: an unverified one must answer plaintext, refuse protected reads and not serve ciphertext under its own exchange keys; a verified one must serve encrypted requests. The same alphabet (all 32 symbols) is also explored to depth 2 (thorough 3) from two non-initial states: L already verified on its connection, and L verified once and then removed by an administrator through /pairings (its genuine finish must then be refused). Plus interleavings of the real pair-verify / pair-setup handlers of two connections under a cooperative scheduler (scheduling points = every log statement of the library, every mutex Lock in hap and crypto, the arrival of each request; preemption bound 2 quick / 3 thorough; and once more with a scheduling point before every statement of hc's packages and one preemption): a genuine and a forged pair-verify naming the same controller, a pair-verify next to another connection's key exchange — exactly the genuine one ends verified. states = tree nodes, distinct_nontrivial = distinct (event → response class) pairs",
+		Rule:  "every history of length ≤3 (quick) / ≤4 (thorough) over 26 symbols, in thorough also every history of length ≤3 over all 35 symbols, of the pair-verify alphabet on an adversary connection X and a legitimate connection L (start valid / 31 / 33 / 0-byte key / all-zero point; finish genuine, signed by X naming L, unknown name, naming the accessory, sealed under zero / wrong key, 0 and 15 byte payloads, tag flipped, L's captured finish replayed, L's signature over reordered or stale material, naming a stored entity that has no key / a 5-byte key, signed by L's own key but naming the case-swapped spelling / a prefix of its name, the accessory's own identifier and signature reflected, a start with the accessory's own ephemeral key followed by a finish that echoes the sealed part of the start response; unknown state; unknown method; reopen; L's start replayed by X; L's genuine finish split with Expect: 100-continue so that its handler overlaps with later events; L's genuine payload followed by bytes that do not form a TLV8 item; L's genuine finish with a complete failing pair-verify appended in the same TCP segment — L is verified all the same). Directly after an accepted start, also every damaged form of L's genuine finish: the signed payload cut to each of its 0…103-byte prefixes, six tails that do not form an item appended inside the sealed payload or after the request body, the body cut by 1, 2, 15, 16, 17 bytes — each must be answered with an error and leave the connection unverified. All against the real transport over TCP; each node is replayed on a fresh system; after every event the response is compared with the reference model (verified ⇔ genuine finish by L directly after an accepted start, computed by the independent controller), and at the end of every history each connection is probed destructively: an unverified one must answer plaintext, refuse protected reads and not serve ciphertext under its own exchange keys; a verified one must serve encrypted requests. The same alphabet (all 35 symbols) is also explored to depth 2 (thorough 3) from two non-initial states: L already verified on its connection, and L verified once and then removed by an administrator through /pairings (its genuine finish must then be refused). Plus interleavings of the real pair-verify / pair-setup handlers of two connections under a cooperative scheduler (scheduling points = every log statement of the library, every mutex Lock in hap and crypto, the arrival of each request; preemption bound 2 quick / 3 thorough; and once more with a scheduling point before every statement of hc's packages and one preemption): a genuine and a forged pair-verify naming the same controller, a pair-verify next to another connection's key exchange — exactly the genuine one ends verified. states = tree nodes, distinct_nontrivial = distinct (event → response class) pairs",
 		Run:   c03Run1,
 		Replay: func(c *fw.Ctx, raw json.RawMessage) {
 			var pc pschedCase
